@@ -40,6 +40,19 @@ def Ex.eval (env : Env) : Ex → UInt64
 def step (env : Env) (s : Nat × Ex) : Env := env.set s.1 (s.2.eval env)
 def run (prog : Prog) (env : Env) : Env := prog.foldl step env
 
+/-- register renaming (a call with other actual parameters / other locals) -/
+def Ex.rename (f : Nat → Nat) : Ex → Ex
+  | .reg i => .reg (f i)
+  | .const c => .const c
+  | .xor a b => .xor (a.rename f) (b.rename f)
+  | .and a b => .and (a.rename f) (b.rename f)
+  | .or a b => .or (a.rename f) (b.rename f)
+  | .not a => .not (a.rename f)
+  | .shl a n => .shl (a.rename f) n
+  | .shr a n => .shr (a.rename f) n
+  | .sub a b => .sub (a.rename f) (b.rename f)
+def Prog.rename (f : Nat → Nat) (p : Prog) : Prog := p.map fun s => (f s.1, s.2.rename f)
+
 /-- all shift amounts < 64, no subtraction, registers < nreg -/
 def Ex.ok (nreg : Nat) : Ex → Bool
   | .reg i => i < nreg
@@ -85,7 +98,9 @@ def Ex.sym (senv : SEnv) : Ex → Nat → Option Aff
           if x.isConst then (if x.c then some y else some Aff.zero)
           else if y.isConst then (if y.c then some x else some Aff.zero)
           else none
-      | _, _ => none
+      | some x, none => if x.isConst && !x.c then some Aff.zero else none     -- masked out: 0 ∧ anything
+      | none, some y => if y.isConst && !y.c then some Aff.zero else none
+      | none, none => none
   | .or a b, p => match a.sym senv p, b.sym senv p with
       | some x, some y =>
           if x.isConst then (if x.c then some ⟨0, true⟩ else some y)
